@@ -124,6 +124,7 @@ def check_summaries(ctx):
             probs, pat = h(sub, mod, q2, fn, site, "arrow")
             ctx.ob("R02.1", "%s.%s:%s" % (mod, q2, pat), not probs, found=probs or pat, required="slice typed by the rows at its ends; reversed slice = dagger of the forward slice",
                    mod=mod, node=site, sig="getitem-" + pat)
+    check_halves(ctx)
     # identities
     for q in (CAT + ".Arrow.id", MON + ".Diagram.id", RIG + ".Diagram.id"):
         c = m.cls(q.rsplit(".", 1)[0])
@@ -299,7 +300,70 @@ def check_daggers(ctx, modules=None, rule="R02.4", kinds=None):
     return n_cls
 
 
+def check_halves(ctx):
+    """R02.5: arrow[:i] >> arrow[i:] == arrow for every depth i (also negative and out of range): cat.Arrow.__getitem__ is folded on arrows of 0 to 3 boxes whose
+    objects are o0 .. on, with the key a real slice object; what it returns is read as (dom, cod, number of boxes)"""
+    from ..fold import fold as ffold, CannotFold, Stub, bind
+    m = ctx.model
+    fn = m.func(CAT + ".Arrow.__getitem__")
+    self_, key = fn.args.args[0].arg, fn.args.args[1].arg
+
+    class Raised(Exception):
+        pass
+
+    def run(body, env):
+        for st in body:
+            if isinstance(st, ast.Expr) and isinstance(st.value, ast.Constant):
+                continue
+            if isinstance(st, ast.If):
+                r = run(st.body if ffold(st.test, env) else st.orelse, env)
+                if r is not None:
+                    return r
+            elif isinstance(st, ast.Assign) and len(st.targets) == 1:
+                bind(st.targets[0], ffold(st.value, env), env)
+            elif isinstance(st, ast.Return):
+                return ("ret", ffold(st.value, env))
+            elif isinstance(st, ast.Raise):
+                raise Raised(ast.unparse(st))
+            else:
+                raise CannotFold("statement %s" % ast.unparse(st)[:40])
+        return None
+    bad, cases = [], 0
+    try:
+        for n in range(0, 4):
+            obs = ["o%d" % k for k in range(n + 1)]
+            boxes = [Stub(dom=obs[k], cod=obs[k + 1], idx=k) for k in range(n)]
+
+            def arrow(d, c, bs, **kw):
+                return ("arrow", d, c, len(bs))
+            for i in range(-5, 6):
+                halves = []
+                for sl in (slice(None, i), slice(i, None)):
+                    env = {self_: Stub(dom=obs[0], cod=obs[n], boxes=boxes, upgrade=lambda x: x), key: sl, "isinstance": isinstance, "slice": slice, "len": lambda x: n if isinstance(x, Stub) else len(x),
+                           "Arrow": arrow, "Id": lambda o: ("arrow", o, o, 0), "max": max, "min": min}
+                    try:
+                        r = run(fn.body, env)
+                    except Raised as e:
+                        r = ("raised", str(e))
+                    except (IndexError, TypeError, AttributeError, ValueError) as e:
+                        r = ("raised", type(e).__name__)
+                    halves.append(r[1] if r and r[0] == "ret" else r)
+                cases += 1
+                a, b = halves
+                want = "(o0 -> x, k boxes), (x -> o%d, %d - k boxes)" % (n, n)
+                ok = isinstance(a, tuple) and isinstance(b, tuple) and a[0] == b[0] == "arrow" and a[1] == obs[0] and a[2] == b[1] and b[2] == obs[n] and a[3] + b[3] == n \
+                    and a[3] == len(boxes[:i]) and (a[3] == 0 or a[2] == boxes[:i][-1].cod)
+                if not ok:
+                    bad.append("%d boxes, i = %d: arrow[:i] = %s, arrow[i:] = %s" % (n, i, a, b))
+    except CannotFold as e:
+        raise AnalysisError("cat.Arrow.__getitem__ cannot be folded: %s" % e)
+    ctx.ob("R02.5", CAT + ".Arrow.__getitem__:halves", not bad, found=bad[:3] or "%d pairs of halves compose back (arrows of 0 to 3 boxes, depths -5 .. 5)" % cases,
+           required="arrow[:i] ends where arrow[i:] starts, the first starts at dom, the second ends at cod, together they have all the boxes (empty halves are identities on the right object)",
+           mod=CAT, node=fn, sig="halves")
+
+
 def check(ctx):
+    ctx.rule("R02.5", "slicing at any depth gives two halves that compose back: empty halves are the identity on the object at that depth (bounded fold of cat.Arrow.__getitem__)")
     ctx.rule("R02.1", "summaries of then / tensor / dagger / slicing / id extracted from source equal the free strict-monoidal algebra on (dom, cod, boxes, offsets)")
     ctx.rule("R02.3", "sums: term-wise then/tensor/dagger with self outermost, promotion of non-sums, typed empty unit, concatenating +")
     ctx.rule("R02.4", "dagger per box class: the rebuild binds, swaps dom/cod and is involutive (abstract construction of generic instances)")
